@@ -9,6 +9,7 @@ def sh(cmd, **kw): return subprocess.run(cmd, shell=True, cwd=wt, capture_output
 def demo_cmd(k):
     src = os.path.join(seed, 'demo%d.c' % k)
     head = open(src).read()[:3000]
+    head = re.sub(r'\\[ \t]*\n[ \t]*\*?[ \t]*', ' ', head)     # join shell line continuations inside the header comment
     m = re.search(r'(gcc[^\n]*demo%d[^\n]*)' % k, head)
     cmd = m.group(1).strip().rstrip('*/').strip() if m else 'gcc -O1 -I. -Isrc -DECMULT_WINDOW_SIZE=15 -DCOMB_BLOCKS=43 -DCOMB_TEETH=6 _seed/demo%d.c -o _seed/demo%d' % (k, k)
     # normalise paths: compile from worktree root, source in _seed
